@@ -318,6 +318,68 @@ func c11Body(double bool) func(rc *RunCtx) {
 				}
 			}
 		}
+		// a neighbour: a second, independent queue of the same type used by one task of its
+		// own. Used alone it must behave exactly like a sequential bounded FIFO, whatever
+		// happens to the queue under test (no state shared between instances).
+		if simrt.ChanceF(1, 3) {
+			ncap := 1 + simrt.ChooseF(3)
+			nops := 3 + simrt.ChooseF(8)
+			var nput func(v int) bool
+			var nforce func(v int) bool
+			var nget func() interface{}
+			var nclear func()
+			var nsize func() int
+			if !double {
+				nq := queue.NewRequestQueue(ncap)
+				nput, nforce, nget, nclear, nsize = func(v int) bool { return nq.Put(v) }, func(v int) bool { return nq.PutForce(v) }, nq.GetNoWait, nq.Clear, nq.Size
+			} else {
+				nq := queue.NewRequestDoubleQueue(ncap, ncap)
+				nput, nforce, nget, nclear, nsize = func(v int) bool { return nq.Put2(v) }, func(v int) bool { return nq.PutForce2(v) }, nq.GetNoWait, nq.Clear, nq.Size
+			}
+			simrt.GoNamed("neighbour", func() {
+				var model []int
+				bad := func(what string) {
+					rc.Violate("C11", "instance-leak", "instance-leak:"+map[bool]string{false: "RequestQueue", true: "RequestDoubleQueue"}[double],
+						"a second queue used by a single task while the first one is busy misbehaved: "+what)
+				}
+				for i := 0; i < nops; i++ {
+					v := 9000 + i
+					switch simrt.ChooseF(6) {
+					case 0, 1:
+						ok := nput(v)
+						if ok != (len(model) < ncap) {
+							bad(fmt.Sprintf("Put(%d) returned %v with %d of %d held", v, ok, len(model), ncap))
+						}
+						if ok {
+							model = append(model, v)
+						}
+					case 2:
+						nforce(v)
+						for len(model) >= ncap {
+							model = model[1:]
+						}
+						model = append(model, v)
+					case 3, 4:
+						got := elem(nget())
+						want := 0
+						if len(model) > 0 {
+							want, model = model[0], model[1:]
+						}
+						if got != want {
+							bad(fmt.Sprintf("GetNoWait returned %d, the neighbour's own history requires %d", got, want))
+						}
+					default:
+						if simrt.ChooseF(3) == 0 {
+							nclear()
+							model = nil
+						}
+					}
+					if s := nsize(); s != len(model) {
+						bad(fmt.Sprintf("Size is %d, the neighbour's own history requires %d", s, len(model)))
+					}
+				}
+			})
+		}
 		// environment fault: the agent's server-time synchronisation moves dateutil's global
 		// offset while consumers may be inside a timed get (the queue must not care)
 		if simrt.ChanceF(1, 4) {
